@@ -34,7 +34,10 @@ def seeded_table():
         rows.append(f"| `{sid}` | {r['property']} | {esc(what[:170])} | {r['exit']} | {esc(', '.join(clauses)) or ('(none: no-failing-input-found)' if noinput else '—')} | {esc('; '.join(ded[:2])) or '—'} |")
     n = len(rows) - 2
     det = sum(1 for sid in R if os.path.exists(os.path.join(V, 'seeded', sid, 'meta.json')) and R[sid]['exit'] == 1)
-    return f"{det} of {n} catalogued changes end in exit 1 with a replayed input.\n\n" + '\n'.join(rows)
+    noin = sum(1 for sid in R if os.path.exists(os.path.join(V, 'seeded', sid, 'meta.json')) and R[sid]['exit'] == 1 and R[sid]['violations']
+               and all('no-failing-input-found' in v for v in R[sid]['violations']))
+    return (f"{det} of {n} catalogued changes end in exit 1: {det - noin} with a replayed input, {noin} with a refuted obligation that was proved on the unchanged tree "
+            f"and no input found (`no-failing-input-found`).\n\n" + '\n'.join(rows))
 
 
 def benign_table():
